@@ -358,6 +358,15 @@ pub fn build(spec: &DocSpec) -> Built {
         if p.rotate % 4 != 0 {
             d.push(("Rotate", Val::Int(90 * (p.rotate % 4) as i64)));
         }
+        if p.annots % 5 == 4 {
+            // an extra page entry that refers to a small private graph with a reference cycle
+            let x1 = a.get();
+            let x2 = a.get();
+            objs.push((x1, Body::Plain(Val::dict(vec![("Kind", name("Private")), ("Next", Val::Ref(x2, 0)), ("Data", Val::str(b"private data"))]))));
+            objs.push((x2, Body::Plain(Val::dict(vec![("Back", Val::Ref(x1, 0)), ("Self", Val::Ref(x2, 0))]))));
+            d.push(("PieceInfo", Val::dict(vec![("Vh", Val::Ref(x1, 0))])));
+            labels.push("page/extra-entry-with-reference-cycle".into());
+        }
         let cc = chain(p.content_chain);
         if p.two_content_parts {
             let c1 = a.get();
